@@ -101,7 +101,11 @@ Proof.
 Qed.
 
 Lemma succeed_workflow_M s s1 : succeed_workflow s = Some s1 -> RM s s1.
-Proof. unfold succeed_workflow. apply wf_set_state_RM. reflexivity. Qed.
+Proof.
+  unfold succeed_workflow. destruct (state_eqb (wf_state s) SUCCESS).
+  - intros H; inversion H; apply RM_refl.
+  - apply wf_set_state_RM. reflexivity.
+Qed.
 
 Lemma cancel_workflow_M s s1 : cancel_workflow s = Some s1 -> RM s s1.
 Proof.
